@@ -111,8 +111,29 @@ func c02Q2(r *core.R) {
 			}
 		}
 	}
-	if len(flows) == 0 {
-		r.Anchor("per-worker decoder value handed to the worker goroutine")
+	// decoder values the worker goroutine makes for itself: locals of the per-worker type declared in the goroutine's
+	// own body (each goroutine has its own); they must be fresh allocations too
+	nOwn := 0
+	ast.Inspect(wg.unit.body, func(n ast.Node) bool {
+		id, ok := n.(*ast.Ident)
+		if !ok {
+			return true
+		}
+		o, ok := info.Defs[id].(*types.Var)
+		if !ok || o.IsField() || !isDD(o.Type()) {
+			return true
+		}
+		nOwn++
+		defs := m.defsOf(o)
+		if len(defs) == 1 && defs[0].kind == "assign" && c02FreshAlloc(m, defs[0].e, 0) {
+			r.OK(c, o.Pos(), "`%s` is allocated by the worker goroutine itself, in its own body: every worker has its own", o.Name())
+		} else {
+			r.Bad(c, o.Pos(), "the decoder value `%s` the worker goroutine uses is not a fresh allocation of its own: all workers share one decoder and its cached iterators, buffers and object slice", o.Name())
+		}
+		return true
+	})
+	if len(flows) == 0 && nOwn == 0 {
+		r.Anchor("per-worker decoder value handed to (or made by) the worker goroutine")
 		return
 	}
 	host := wg.host
